@@ -1019,7 +1019,7 @@ def r_coincidence_both(cx):
     cx.count("R-COINCIDENCE-BOTH", "shortcuts", n)
 
 
-@rule("R-AZIMUTH-ATAN2", ["C06"])
+@rule("R-AZIMUTH-ATAN2", ["C06", "C01"])
 def r_azimuth_atan2(cx):
     """An azimuth ranges over the full circle: the azimuths the geodesic routines return (element 2 of geodesic_fwd's
     result, elements 0 and 1 of geodesic_inv's) are two-argument arctangents of their sine-like and cosine-like parts.
@@ -1059,4 +1059,18 @@ def r_azimuth_atan2(cx):
                       "%s returns an azimuth (element %d) computed by `%s`, not by a two-argument arctangent: lines heading "
                       "into the other half of the circle get an azimuth that is off by 180 degrees" % (
                           fn.rsplit("::", 1)[-1], k, kind), cx.where(f.d["span"]))
+        # ... and so is every other angle of the solution that is recovered from a sine-like and a cosine-like part (the
+        # angular separation sigma, the longitude difference): Vincenty's `tan x = s / c` transcribed as `(s / c).atan()`
+        # loses the quadrant as soon as the line is longer than a quarter of the circumference
+        q = 0
+        for bb, t in f.calls():
+            if (f.callee(t) or "").rsplit("::", 1)[-1] != "atan" or "f64" not in (f.callee(t) or ""):
+                continue
+            a = mir.strip_refs(f.arg_terms(bb)[0])
+            if a[0] == "bin" and a[1] == "Div":
+                q += 1
+                cx.ob("R-AZIMUTH-ATAN2", "%s/quotient-atan%d" % (fn.rsplit("::", 1)[-1], q - 1), False,
+                      "%s recovers an angle as the one-argument arctangent of a quotient: where the divisor is negative (lines "
+                      "spanning more than 90 degrees of arc) the angle is off by 180 degrees" % fn.rsplit("::", 1)[-1],
+                      cx.where(t["span"]))
     cx.count("R-AZIMUTH-ATAN2", "azimuths", n)
